@@ -239,6 +239,89 @@ def run(chk):
         return True, "", [i.loc, g.loc]
     chk.ob("C20.R4:try_init_slot", "the runtime is built from the setup's own five components; None when init loses; the handle reads the slot after initialisation", try_init_slot)
 
+    def every_runtime_whole():
+        """Every place in emit::setup that assembles a Runtime from Runtime::new() gives it all five components, each from
+        the like-named field of the Setup (try_init_slot, try_init_internal, init_runtime, ...)."""
+        n = 0
+        sites = []
+        for b in P.by_crate["emit"]:
+            if not b.file.endswith("src/setup.rs") or b.is_closure:
+                continue
+            for c in b.calls(normal_only=True):
+                if c.callee.get("name") == "build" and "Runtime" in (c.callee.get("path") or c.callee.get("full") or "") and len(c.args) == 5:
+                    n += 1
+                    flds = [mir.o_field_path(b.origin(a))[1] for a in c.args]
+                    if flds != [["emitter"], ["filter"], ["ctxt"], ["clock"], ["rng"]]:
+                        return False, "%s builds a runtime from %s, not (emitter, filter, ctxt, clock, rng) of the setup" % (b.key, flds), [], c.loc
+                    sites.append(c.loc)
+            withs = [c for c in b.calls(normal_only=True) if (c.callee.get("name") or "").startswith("with_") and "Runtime" in (c.callee.get("path") or c.callee.get("full") or "")]
+            if not withs:
+                continue
+            recv_bbs = set()
+            for c in withs:
+                r = b.origin(c.args[0])
+                if r[0] == "call":
+                    recv_bbs.add(r[1].bb)
+            tails = [c for c in withs if c.bb not in recv_bbs]
+            for tcall in tails:
+                seen = []
+                x = ("call", tcall)
+                d = 0
+                head = None
+                while x[0] == "call" and d < 10:
+                    nm = x[1].callee.get("name")
+                    if nm and nm.startswith("with_"):
+                        seen.append((nm[5:], mir.o_field_path(b.origin(x[1].args[1]))[1]))
+                    elif nm == "new":
+                        head = x[1]
+                        break
+                    if not x[1].args:
+                        break
+                    x = b.origin(x[1].args[0])
+                    d += 1
+                if head is None:
+                    continue   # a builder step on an existing runtime (map_emitter etc.), not an assembly from scratch
+                n += 1
+                want = {"emitter", "filter", "ctxt", "clock", "rng"}
+                got = {k for k, f in seen}
+                if got != want:
+                    return False, ("%s assembles a runtime from Runtime::new() with only %s: the missing component(s) %s silently stay "
+                                   "Empty, so the slot becomes enabled with a mix of the configured components and defaults"
+                                   % (b.key, sorted(got), sorted(want - got))), [], tcall.loc
+                bad = [(k, f) for k, f in seen if f != [k]]
+                if bad:
+                    return False, "%s gives with_%s the value %s, not self.%s" % (b.key, bad[0][0], bad[0][1], bad[0][0]), [], tcall.loc
+                sites.append(tcall.loc)
+        if n < 3:
+            raise mir.AnchorMissing("runtime assemblies in emit::setup (found %d)" % n)
+        return True, "", sites
+    chk.ob("C20.R4:every-runtime-whole", "every runtime assembled by Setup carries all five configured components together", every_runtime_whole)
+
+    def top_level():
+        """emit::{emitter, filter, ctxt, clock, rng, blocking_flush}: straight-line reads of runtime::shared(), so before
+        initialisation they see the constant empty runtime (flush true, nothing emitted) and never a special case."""
+        sites = []
+        for fn in ("emitter", "filter", "ctxt", "clock", "rng", "blocking_flush"):
+            key = "emit::%s" % fn
+            if not P.has_body(key):
+                raise mir.AnchorMissing(key)
+            b = P.body(key)
+            if [1 for bb, t in b.switches() if not b.blocks[bb]["cleanup"]]:
+                return False, ("emit::%s() branches (e.g. on is_enabled()): it must go through runtime::shared() unconditionally so that an "
+                               "uninitialised slot answers with the constant empty runtime - whose flush is true" % fn), [], b.span
+            sh = [c for c in b.calls(normal_only=True) if (c.callee.get("path") or "").endswith("runtime::shared")
+                  or ((c.callee.get("path") or "").endswith("AmbientSlot::get"))]
+            acc = [c for c in b.calls(normal_only=True) if c.callee.get("name") == fn]
+            if len(sh) != 1 or len(acc) != 1:
+                return False, "emit::%s() must be runtime::shared().%s(..): found %d runtime reads, %d accessor calls" % (fn, fn, len(sh), len(acc)), [], b.span
+            if not common.has_root(b.origin(acc[0].args[0]), "callsite", sh[0].bb):
+                return False, "emit::%s() does not ask the shared runtime" % fn, [], acc[0].loc
+            if not common.has_root(b.origin(0), "callsite", acc[0].bb):
+                return False, "emit::%s() does not return the shared runtime's answer" % fn, [], acc[0].loc
+            sites.append(acc[0].loc)
+        return True, "", sites
+    chk.ob("C20.R3:top-level", "the crate-level accessors and flush go through runtime::shared() unconditionally (inert, flush true, before init)", top_level)
+
     def init_slot():
         b = P.body("emit::setup::Setup::<TEmitter, TFilter, TCtxt, TClock, TRng>::init_slot")
         t = [c for c in b.calls(normal_only=True) if (c.callee.get("path") or "").endswith("::try_init_slot")]
